@@ -66,6 +66,9 @@ func c14Purity(c *core.Ctx) {
 	model := names[c.Idx%len(names)]
 	N := []int{1, 3}[c.R.Intn(2)]
 	T := c.R.IntRange(1, 30)
+	if c.R.Bool(0.15) && model != "Storage" {
+		T = c.R.IntRange(200, 420) // more than a year of daily steps: whatever varies with the season or the calendar shows
+	}
 	wc := 0
 	if needsWidthClass(model) {
 		wc = widthClassFor(c.R, N)
@@ -105,6 +108,33 @@ func c14Purity(c *core.Ctx) {
 	p1.Model.ApplyParameters(p1.Params)
 	cmpRuns(c, "rerun-same-input-arrays", model, "second run re-using the input and parameter arrays of the first", ref, p2b.Exec())
 	c.Count("reruns_on_the_same_input_arrays", 1)
+	// 2d: another process environment (time zone, locale, working directory): not an argument of the function
+	if c.R.Bool(0.5) {
+		pe, _ := Prepare(run)
+		var oe *MOut
+		zone := WithOtherEnvironment(int(c.R.Uint64()%6), func() { oe = pe.Exec() })
+		cmpRuns(c, "rerun-in-other-environment", model, "fresh object with the local time zone "+zone+", a German locale and another working directory", ref, oe)
+		c.Count("reruns_in_another_environment", 1)
+	}
+	// 2c: the same input array OBJECT refilled in place with other values (one forcing buffer used for the next
+	// station / period), run on a fresh model object: the result is that of the new contents, whatever was in the buffer
+	if len(p1.Desc.Inputs) > 0 {
+		other := *run
+		other.Inputs = nil
+		rr := core.NewRand(c.R.Uint64())
+		for b := range run.Inputs {
+			other.Inputs = append(other.Inputs, GenInputs(model, rr, T, run.Sets[b%len(run.Sets)]))
+		}
+		if want, err := Execute(&other); err == nil {
+			pr, _ := Prepare(run)
+			pr.Inputs = p1.Inputs
+			pr.RefillInputs(other.Inputs)
+			cmpRuns(c, "run-on-refilled-input-arrays", model, "fresh object run on the first run's input array after the caller refilled it in place", want, pr.Exec())
+			// put the first contents back for the comparisons that follow
+			pr.RefillInputs(run.Inputs)
+			c.Count("runs_on_refilled_input_arrays", 1)
+		}
+	}
 	// 3: after other models (and other parameterisations of this model) have run
 	for _, o := range others {
 		r2 := core.NewRand(o.Seed)
